@@ -117,9 +117,10 @@ func checkC01(c *Ctx) {
 	c.whoMayCall("C01.5", tryCommit, "Committer.TryCommit", "(*hs/protocol/consensus.Voter).OnValidPropose", "(*hs/protocol/consensus.Proposer).Propose")
 	{
 		ft := NewFlow(p, tryCommit)
-		for _, s := range callsIn(tryCommit, false, func(cc *ssa.CallCommon) bool { return calleeIs(cc, commit) }) {
-			arg := ft.K.Key(s.Common().Args[1])
-			facts := ft.At(s)
+		for _, ds := range deepSites(ft, func(cc *ssa.CallCommon) bool { return calleeIs(cc, commit) }, 0) {
+			s := ds.Site
+			arg := ds.Args[1]
+			facts := ds.Facts
 			ok := strings.Contains(arg, "CommitRuler).CommitRule(") && strings.Contains(arg, ", p1)") && notNilOf(facts, is(arg))
 			c.Check(ok, "C01.5", "TryCommit: commit(CommitRule(block)) under != nil", p.Pos(s.Pos()),
 				"commit receives the non-nil result of ruler.CommitRule(block)", "commit called with "+arg+"; facts: "+join(facts.Sorted()))
@@ -127,9 +128,10 @@ func checkC01(c *Ctx) {
 		propose := p.Method("protocol/consensus", "Proposer", "Propose")
 		if propose != nil {
 			fp := NewFlow(p, propose)
-			for _, s := range callsIn(propose, false, func(cc *ssa.CallCommon) bool { return calleeIs(cc, tryCommit) }) {
-				facts := fp.At(s)
-				arg := fp.K.Key(s.Common().Args[1])
+			for _, ds := range deepSites(fp, func(cc *ssa.CallCommon) bool { return calleeIs(cc, tryCommit) }, 0) {
+				s := ds.Site
+				facts := ds.Facts
+				arg := ds.Args[1]
 				ok := arg == "p1"+kPropBlock && errNilOf(facts, func(k string) bool {
 					return strings.Contains(k, "(*hs/protocol/consensus.Voter).Verify(") && strings.Contains(k, ", p1)")
 				})
